@@ -8,7 +8,6 @@ RewQ(e) == e.ts.reward.q[1]
 EnvMask(i) == PreTs(i).obs.action_mask                                  \* the mask the implementation showed the agent
 EnvAllows(i) == EnvMask(i)[Ev(i).a[1] + 1][Ev(i).a[2] + 1][Ev(i).a[3] + 1]
 Live(i) == IsReset(i) \/ ~Ev(i).pl                                      \* the event belongs to the episode proper
-InSpec(a) == a \in Actions
 
 (* the reset event that started the episode of line i *)
 RECURSIVE RootLine(_)
